@@ -108,7 +108,7 @@ class FileDumper(DumperBase):
         # File size:
         filesize = temp_file.tell()
         DumperBase.inc_attr(self.datapackage.descriptor, self.datapackage_bytes, filesize)
-        DumperBase.inc_attr(resource_descriptor, self.resource_bytes, filesize)
+        DumperBase.set_attr(resource_descriptor, self.resource_bytes, filesize)
 
         # File Hash:
         if self.resource_hash:
